@@ -126,6 +126,17 @@ CHECKS["C12"] = {
     "explanation": "E3 obligations + structural rules over six bodies",
 }
 
+CHECKS["C20"] = {
+    "module": "rules_c20",
+    "level": "proof",
+    "quick_fs": ["default"],
+    "thorough_fs": ["default", "both"],
+    "technique": "abstract interpretation of FindChangePoints::next (all arithmetic asserts from the search guards); exact rational Kraft sums over the constant length tables; structural protocol rule",
+    "claim": "Partial, stated as such: (F1) every overflow/underflow assert of the exponential + binary search (current+step, step doubling, left+(right-left)/2, mid+1) is discharged from the guards for ANY function and state, so the iterator cannot wrap around and spin in release builds or panic in debug builds; (F3) the first call yields (0, f(0)), every later item is (x, f(x)) with the remembered state updated together, f is only called through the stored closure; (F4) the three LEN tables are non-decreasing and every prefix satisfies Kraft's inequality (exact rationals). NOT decided: monotonicity/Kraft of the length formulas over 2^64 values and all parameters, and that no change point is skipped.",
+    "note": "Trusted: rustc MIR/const evaluation, exporter, LP entailment. Hypothesis: f non-decreasing (the debug assertions stating it are not obligations).",
+    "explanation": "E3 obligations + table arithmetic + structural rule",
+}
+
 NOT_APPLICABLE = {
     "C17": "a bijection over all values of six integer widths is a statement about (x>>1)^-(x&1) on 2^n values: the generic body is a chain of operator-trait calls with no table, pairing, ordering or ownership structure to check; proving the identity needs bit-vector reasoning (a solver) or running it, both outside static analysis (DESIGN.md section 6)",
 }
